@@ -586,3 +586,138 @@ Proof.
   induction s as [i p kids IH] using itree_ind'. cbn [post_vis post_ids]. f_equal. apply flat_map_ext_in'.
   intros k Hk. rewrite Forall_forall in IH. exact (IH k Hk).
 Qed.
+
+(* ---------------------------------------------------------------- subsequences and pruned level order *)
+Inductive subseq {A} : list A -> list A -> Prop :=
+| sub_nil : subseq [] []
+| sub_skip x l l' : subseq l l' -> subseq l (x :: l')
+| sub_keep x l l' : subseq l l' -> subseq (x :: l) (x :: l').
+Lemma subseq_refl {A} (l : list A) : subseq l l.
+Proof. induction l; constructor; assumption. Qed.
+Lemma subseq_nil_l {A} (l : list A) : subseq [] l.
+Proof. induction l; constructor; assumption. Qed.
+Lemma subseq_length {A} (l l' : list A) : subseq l l' -> length l <= length l'.
+Proof. induction 1; cbn; lia. Qed.
+Lemma subseq_of_nil {A} (l : list A) : subseq l [] -> l = [].
+Proof. inversion 1. reflexivity. Qed.
+Lemma subseq_app {A} (a a' b b' : list A) : subseq a a' -> subseq b b' -> subseq (a ++ b) (a' ++ b').
+Proof. induction 1; intros Hb; cbn; [exact Hb|apply sub_skip; auto|apply sub_keep; auto]. Qed.
+Lemma subseq_filter {A} (P : A -> bool) l : subseq (filter P l) l.
+Proof. induction l as [|x r IH]; [constructor|]. cbn. destruct (P x); [apply sub_keep|apply sub_skip]; exact IH. Qed.
+Lemma subseq_flat_map {A B} (f g : A -> list B) : (forall x, subseq (f x) (g x)) ->
+  forall l l', subseq l l' -> subseq (flat_map f l) (flat_map g l').
+Proof.
+  intros Hfg l l' H. induction H as [|x l l' _ IH|x l l' _ IH]; cbn.
+  - constructor.
+  - rewrite <- (app_nil_l (flat_map f l)). apply subseq_app; [apply subseq_nil_l|exact IH].
+  - apply subseq_app; [apply Hfg|exact IH].
+Qed.
+
+Section Levels.
+  Variable g g' : nid -> list nid.
+  Hypothesis Hgg : forall x, subseq (g x) (g' x).
+  Lemma lvg_subseq : forall d l l', subseq l l' -> subseq (lvg g d l) (lvg g' d l').
+  Proof.
+    induction d as [|d IH]; intros l l' H; [constructor|]. cbn [lvg]. apply subseq_app; [exact H|].
+    apply IH. apply subseq_flat_map; assumption.
+  Qed.
+  (* the level reached after d steps *)
+  Fixpoint lev (h : nid -> list nid) (d : nat) (l : list nid) : list nid :=
+    match d with O => l | S d' => lev h d' (flat_map h l) end.
+  Lemma lvg_snoc h : forall d l, lvg h (S d) l = lvg h d l ++ lev h d l.
+  Proof.
+    induction d as [|d IH]; intros l; [cbn; rewrite app_nil_r; reflexivity|].
+    change (lvg h (S (S d)) l) with (l ++ lvg h (S d) (flat_map h l)). rewrite IH. cbn [lvg lev]. rewrite app_assoc. reflexivity.
+  Qed.
+  Lemma lev_subseq : forall d l l', subseq l l' -> subseq (lev g d l) (lev g' d l').
+  Proof.
+    induction d as [|d IH]; intros l l' H; [exact H|]. cbn [lev]. apply IH. apply subseq_flat_map; assumption.
+  Qed.
+  Lemma saturated_iff h d l : lvg h d l = lvg h (S d) l <-> lev h d l = [].
+  Proof.
+    rewrite lvg_snoc. split; intros H.
+    - rewrite <- (app_nil_r (lvg h d l)) in H at 1. apply app_inv_head in H. symmetry. exact H.
+    - rewrite H, app_nil_r. reflexivity.
+  Qed.
+  Lemma saturated_subseq d l l' : subseq l l' -> lvg g' d l' = lvg g' (S d) l' -> lvg g d l = lvg g (S d) l.
+  Proof.
+    intros H Hs. apply saturated_iff. apply saturated_iff in Hs. apply subseq_of_nil. rewrite <- Hs. apply lev_subseq. exact H.
+  Qed.
+End Levels.
+
+Lemma lv_lvg t : forall d l, lv t d l = lvg (a_children t) d l.
+Proof. induction d as [|d IH]; intros l; [reflexivity|]. cbn [lv lvg]. rewrite IH. reflexivity. Qed.
+Lemma lvg_ext g g' : (forall x, g x = g' x) -> forall d l, lvg g d l = lvg g' d l.
+Proof.
+  intros H. induction d as [|d IH]; intros l; [reflexivity|]. cbn [lvg]. rewrite IH. f_equal. f_equal.
+  apply flat_map_ext_in'. intros x _. apply H.
+Qed.
+Lemma vis_children_ftrue t x : vis_children t ftrue x = a_children t x.
+Proof. unfold vis_children. apply filter_ftrue. Qed.
+
+(* ---------------------------------------------------------------- index paths among visible siblings *)
+Lemma rpathD_unfold D n i p kids :
+  rpathD D n (INode i p kids) = if N.eqb i n then Some [] else rpath_kidsD D (rpathD D n) 0 kids.
+Proof. reflexivity. Qed.
+Lemma rpathD_root D t : rpathD D (iid t) t = Some [].
+Proof. destruct t as [i p kids]. rewrite rpathD_unfold. cbn [iid]. rewrite N.eqb_refl. reflexivity. Qed.
+Lemma rpath_kidsD_none D rec : forall l i, (forall k, In k l -> rec k = None) -> rpath_kidsD D rec i l = None.
+Proof.
+  induction l as [|k r IH]; intros i H; [reflexivity|]. cbn. rewrite (H k (or_introl eq_refl)). apply IH.
+  intros k' Hk'. apply H. right. exact Hk'.
+Qed.
+Lemma rpath_kidsD_pick D rec : forall l1 i k l2 p, (forall x, In x l1 -> rec x = None) -> rec k = Some p ->
+  rpath_kidsD D rec i (l1 ++ k :: l2) = Some ((i + vcount D l1) :: p).
+Proof.
+  induction l1 as [|x l1' IH]; intros i k l2 p H Hk; cbn [app rpath_kidsD].
+  - rewrite Hk. unfold vcount. cbn. rewrite Nat.add_0_r. reflexivity.
+  - rewrite (H x (or_introl eq_refl)). rewrite (IH _ k l2 p); [|intros y Hy; apply H; right; exact Hy|exact Hk].
+    unfold vcount. cbn [filter]. destruct (D (iid x)); cbn [length]; f_equal; f_equal; lia.
+Qed.
+Lemma rpathD_none D n t : ~ In n (ids t) -> rpathD D n t = None.
+Proof.
+  induction t as [i p kids IH] using itree_ind'. intros Hn. rewrite rpathD_unfold. rewrite ids_unfold in Hn.
+  destruct (N.eqb i n) eqn:E; [apply N.eqb_eq in E; subst; exfalso; apply Hn; left; reflexivity|].
+  apply rpath_kidsD_none. intros k Hk. rewrite Forall_forall in IH. apply (IH k Hk).
+  intros Hin. apply Hn. right. apply in_flat_map. exists k. auto.
+Qed.
+Lemma rpathD_some D n t : In n (ids t) -> exists p, rpathD D n t = Some p.
+Proof.
+  induction t as [i pl kids IH] using itree_ind'. intros Hn. rewrite rpathD_unfold. rewrite ids_unfold in Hn.
+  destruct (N.eqb i n) eqn:E; [eexists; reflexivity|]. destruct Hn as [->|Hn]; [rewrite N.eqb_refl in E; discriminate|].
+  apply in_flat_map in Hn. destruct Hn as [k [Hk Hn]]. rewrite Forall_forall in IH.
+  clear E. generalize 0. induction kids as [|a r IHr]; intros i0; [destruct Hk|]. cbn.
+  destruct (rpathD D n a) eqn:Ea; [eexists; reflexivity|]. destruct Hk as [->|Hk].
+  - destruct (IH k (or_introl eq_refl) Hn) as [p Hp]. congruence.
+  - apply IHr; [intros x Hx; apply IH; right; exact Hx|exact Hk].
+Qed.
+Lemma rpathD_into D i p l1 k l2 m : NoDup (ids (INode i p (l1 ++ k :: l2))) -> In m (ids k) ->
+  rpathD D m (INode i p (l1 ++ k :: l2)) = match rpathD D m k with Some q => Some (vcount D l1 :: q) | None => None end.
+Proof.
+  intros Hnd Hm. rewrite rpathD_unfold. rewrite ids_unfold in Hnd. inversion Hnd as [|? ? Hni Hnd']; subst.
+  assert (Hin : In m (flat_map ids (l1 ++ k :: l2))) by (apply in_flat_map; exists k; split; [apply in_or_app; right; left; reflexivity|exact Hm]).
+  destruct (N.eqb i m) eqn:E; [apply N.eqb_eq in E; subst; contradiction|].
+  destruct (rpathD_some D m k Hm) as [q Hq]. rewrite Hq. rewrite (rpath_kidsD_pick D (rpathD D m) l1 0 k l2 q); [reflexivity| |exact Hq].
+  intros x Hx. apply rpathD_none. intros Hmx. rewrite flat_map_app in Hnd'.
+  eapply nodup_app_disj; [exact Hnd'|apply in_flat_map; exists x; split; [exact Hx|exact Hmx]|].
+  cbn [flat_map]. apply in_or_app. left. exact Hm.
+Qed.
+Lemma vcount_ids D l : vcount D l = length (filter D (map iid l)).
+Proof. unfold vcount. induction l as [|k r IH]; [reflexivity|]. cbn. destruct (D (iid k)); cbn; rewrite IH; reflexivity. Qed.
+Lemma rpathD_kid D t : NoDup (ids t) -> forall s l1 n l2, In s (subtrees t) -> kid_ids s = l1 ++ n :: l2 ->
+  exists ps, rpathD D (iid s) t = Some ps /\ rpathD D n t = Some (ps ++ [length (filter D l1)]).
+Proof.
+  induction t as [i p kids IH] using itree_ind'. intros Hnd s l1 n l2 Hs E. rewrite subtrees_unfold in Hs. destruct Hs as [<-|Hs].
+  - exists []. split; [apply (rpathD_root D (INode i p kids))|]. unfold kid_ids in E. cbn [ikids] in E.
+    apply map_eq_app in E. destruct E as [k1 [k2' [Ek [E1 E2]]]]. apply map_eq_cons in E2. destruct E2 as [k [k2 [-> [E2 E3]]]].
+    subst kids. rewrite (rpathD_into D i p k1 k k2 n Hnd); [|destruct k; rewrite ids_unfold; left; exact E2].
+    rewrite <- E2, rpathD_root, <- E1, vcount_ids. reflexivity.
+  - apply in_flat_map in Hs. destruct Hs as [k [Hk Hs]]. destruct (in_split _ _ Hk) as [k1 [k2 Ek]]. subst kids.
+    assert (Hndk : NoDup (ids k)).
+    { rewrite ids_unfold in Hnd. inversion Hnd as [|? ? _ H]; subst. exact (flat_map_nodup_part ids _ k H Hk). }
+    rewrite Forall_forall in IH. destruct (IH k Hk Hndk s l1 n l2 Hs E) as [ps [H1 H2]].
+    exists (vcount D k1 :: ps). split.
+    + rewrite (rpathD_into D i p k1 k k2 (iid s) Hnd (sub_id_in k s Hs)), H1. reflexivity.
+    + assert (Hn : In n (ids k)) by (apply (kid_id_in k s n Hs); rewrite E; apply in_or_app; right; left; reflexivity).
+      rewrite (rpathD_into D i p k1 k k2 n Hnd Hn), H2. reflexivity.
+Qed.
